@@ -362,7 +362,32 @@ def replay_fee(chk, model, inputs):
                                                           min(fp + min_fee, MAXU), min(tips + fee - min_fee, MAXU))
         if why:
             return True, sc, {'why': why, 'min_fee': min_fee, 'fee': fee, 'result': run.get('result')}
-    return False, scenario_for(cands[0]), {'tried_fees': [str(c) for c in cands], 'all_consistent': True}
+    # the same transaction in two signature variants (same hash_nosigs, different serialized size, hence different minimum
+    # fees), each applied to its own copy of the state in one process: each must be charged its OWN minimum
+    sc2 = scenario_for(0)
+    light = sc2['txs'][0]
+    heavy = dict(light, name='b', sigs=['ab' * 300])
+    sc2['txs'] = [light, heavy]
+    sc2['coins'][0]['value'] = str(1 << 60)
+    probe = harness.run_replay([dict(sc2, orders=[[0]])], 'dev')[0]
+    if 'error' in probe or 'unrealizable' in probe:
+        raise Inconclusive('replay: %s' % str(probe)[:300])
+    ml, mh = int(probe['min_fees']['a']), int(probe['min_fees']['b'])
+    if mult and mh > ml:
+        fee = ml  # enough for the light variant, too little for the heavy one
+        for t in sc2['txs']:
+            t['fee'] = str(fee)
+            t['outputs'][0]['value'] = str((1 << 60) - fee)
+        out = harness.run_replay([dict(sc2, orders=[[0], [1]])], 'dev')[0]
+        r_light, r_heavy = out['runs'][0], out['runs'][1]
+        why = []
+        if r_light.get('result') != 'Ok':
+            why.append('light variant paying its minimum %d rejected: %s' % (ml, r_light.get('result')))
+        if r_heavy.get('result') == 'Ok':
+            why.append('heavy variant (minimum %d) accepted with fee %d after the light one was weighed' % (mh, fee))
+        if why:
+            return True, sc2, {'why': why, 'min_fee_light': ml, 'min_fee_heavy': mh}
+    return False, scenario_for(cands[0]), {'tried_fees': [str(c) for c in cands], 'all_consistent': True, 'signature_variants': 'consistent'}
 
 
 def replay_reward(chk, model, inputs):
